@@ -581,7 +581,7 @@ func (r *rwRT) ruleOptOrder() {
 	c.fn(relName(fn))
 	pos := r.w.FnPos(fn)
 	// the per-file closure handed to VisitAllFiles
-	in := r.interp(rwConfig{root: fn, boundaries: map[string]bool{"optimizeImports": true, "optimizeDelayCall": true, "etaReduction": true, "optimizeBindCall": true}})
+	in := r.interp(rwConfig{root: fn, boundaries: map[string]bool{"optimizeDelayCall": true, "etaReduction": true, "optimizeBindCall": true}})
 	outs := in.Run(nil, fn, []AV{Sym{Name: "o", NN: true}, Sym{Name: "printer", NN: true}}, nil)
 	r.account(in)
 	var visit AV
@@ -619,13 +619,15 @@ func (r *rwRT) ruleOptOrder() {
 			}
 			if e.Fn != nil && inRw(e.Fn) {
 				seq = append(seq, e.Fn.Name())
+			} else if e.Fn != nil && e.Fn.Name() == "Clean" && strings.Contains(fnPkgPath(e.Fn), "go-imports") {
+				seq = append(seq, "cleanImports")
 			} else if isSymNamed(e.Callee, "printer") {
 				seq = append(seq, "print")
 			}
 		}
 		got := strings.Join(seq, ",")
 		if uses {
-			good := len(seq) >= 2 && seq[len(seq)-1] == "print" && strings.Contains(got, "optimizeImports")
+			good := len(seq) >= 2 && seq[len(seq)-1] == "print" && strings.Count(got, "print") == 1 && strings.Contains(got, "cleanImports")
 			c.check(good, "OPT.ORDER", "file using seq", pos, "imports are cleaned and the optimisations run before the file is printed exactly once: "+got, "unexpected per-file sequence: "+got)
 		} else {
 			c.check(!strings.Contains(got, "print"), "OPT.ORDER", "file not using seq", pos, "a rewritten file that does not use seq is not written to the destination (e.g. a co file that only blank-imports the API)", "a file that does not use seq is printed: an extra generated file appears in the package: "+got)
